@@ -507,8 +507,9 @@ def parse_authority(authority: bytes) -> list[Node]:
             )
         )
         offset += len(username)
+    if b":" in userinfo:
+        offset += 1  # for the :, even when the password is empty
     if password:
-        offset += 1  # for the :
         out.append(
             Node(
                 "network.url.password",
